@@ -125,6 +125,58 @@ pub struct Choice {
   pub kind: u8,
   /// deviations of this kind (stale reads / spurious failures) taken before this point
   pub dev_before: u8,
+  /// sleep-set mode: options (bit j = option j) whose thread is asleep here; they are not explored from this node
+  pub asleep: u16,
+}
+
+/// What the next visible action of a logical thread touches (sleep-set mode).  Every transition of a logical
+/// thread is one visible action, announced at the scheduling point in front of it, followed by computation that
+/// touches nothing shared.
+#[derive(Clone, Copy, Debug, Default)]
+pub struct Fp {
+  /// 0 nothing beyond the ranges; 1 reads everything (a wait: depends on every write); 2 writes everything (teardown)
+  all: u8,
+  n: u8,
+  r: [(usize, usize, bool); 2],
+}
+
+impl Fp {
+  fn one(lo: usize, len: usize, write: bool) -> Fp {
+    Fp { all: 0, n: 1, r: [(lo, lo + len, write), (0, 0, false)] }
+  }
+  fn two(a: (usize, usize, bool), b: (usize, usize, bool)) -> Fp {
+    Fp { all: 0, n: 2, r: [(a.0, a.0 + a.1, a.2), (b.0, b.0 + b.1, b.2)] }
+  }
+  fn read_all() -> Fp {
+    Fp { all: 1, ..Default::default() }
+  }
+  fn write_all() -> Fp {
+    Fp { all: 2, ..Default::default() }
+  }
+  fn writes(&self) -> bool {
+    self.all == 2 || self.r[..self.n as usize].iter().any(|x| x.2 && x.1 > x.0)
+  }
+  fn empty(&self) -> bool {
+    self.all == 0 && self.r[..self.n as usize].iter().all(|x| x.1 <= x.0)
+  }
+}
+
+/// two visible actions are dependent when they touch a common byte and one of them writes it
+fn dependent(a: &Fp, b: &Fp) -> bool {
+  if a.all == 2 || b.all == 2 {
+    return true;
+  }
+  if a.all == 1 && b.writes() || b.all == 1 && a.writes() {
+    return true;
+  }
+  for x in &a.r[..a.n as usize] {
+    for y in &b.r[..b.n as usize] {
+      if (x.2 || y.2) && x.0 < y.1 && y.0 < x.1 {
+        return true;
+      }
+    }
+  }
+  false
 }
 
 #[derive(Clone, Debug)]
@@ -206,6 +258,20 @@ struct Eng {
   draining: bool,
   /// values observed by the litmus steps: (thread, step, value)
   obs: Vec<(u8, u8, u64)>,
+  /// sleep-set mode (no preemption bound): partial-order reduction
+  por: bool,
+  /// footprint of the visible action each thread performs when it is scheduled next
+  pending: Vec<Fp>,
+  /// threads asleep (bit t): their next action was explored from an ancestor and nothing dependent happened since
+  sleep: u32,
+  /// choice point at which every enabled thread was asleep: the rest of this execution repeats an explored one
+  blocked_at: Option<usize>,
+  /// sleep-set mode: what each thread has loaded since its last yield (address, size), and whether any of it has
+  /// been overwritten since (then the next iteration of its wait loop may go differently: it is not parked)
+  rs: Vec<Vec<(usize, usize)>>,
+  dirty: Vec<bool>,
+  /// location-precise parking (always on in sleep-set mode; on its own only for the self-test of the reduction)
+  precise: bool,
 }
 
 thread_local! {
@@ -222,7 +288,7 @@ fn fn_of(file: &str, line: u32) -> String {
 fn enabled(e: &Eng, t: usize) -> bool {
   match e.st[t] {
     St::Runnable => true,
-    St::Parked(ep) => e.wepoch > ep,
+    St::Parked(ep) => !e.precise && e.wepoch > ep,
     St::Finished => false,
   }
 }
@@ -244,6 +310,9 @@ fn decide(e: &mut Eng, cur_ok: bool, costly: bool) -> Option<usize> {
   if n == 0 {
     return None;
   }
+  if e.por && e.blocked_at.is_none() {
+    return Some(decide_por(e, &opts[..n], cur_ok, costly));
+  }
   if n == 1 {
     return Some(opts[0]);
   }
@@ -263,11 +332,126 @@ fn decide(e: &mut Eng, cur_ok: bool, costly: bool) -> Option<usize> {
     let h = state_hash(e);
     e.state_hashes.push(h);
   }
-  e.choices.push(Choice { n: n as u8, chosen: c, pre_before: e.preempt, costly: cur_ok && costly, kind: 0, dev_before: 0 });
+  e.choices.push(Choice { n: n as u8, chosen: c, pre_before: e.preempt, costly: cur_ok && costly, kind: 0, dev_before: 0, asleep: 0 });
   if cur_ok && costly && c != 0 {
     e.preempt += 1;
   }
   Some(opts[c as usize])
+}
+
+/// Sleep sets (Godefroid): the options of a node are explored in ascending order; while option c is explored the
+/// threads of the options before it sleep, and a sleeping thread wakes up as soon as an action dependent on its
+/// pending one is executed.  A node whose enabled threads are all asleep only leads to executions that are
+/// equivalent (same per-thread observations, same memory) to explored ones: the execution is finished with default
+/// choices and not expanded any further.
+fn decide_por(e: &mut Eng, opts: &[usize], cur_ok: bool, costly: bool) -> usize {
+  let n = opts.len();
+  let mut asleep: u16 = 0;
+  for (j, t) in opts.iter().enumerate() {
+    if e.sleep & (1 << *t) != 0 {
+      asleep |= 1 << j;
+    }
+  }
+  let first_awake = (0..n).find(|j| asleep & (1 << j) == 0);
+  let c: usize;
+  if n == 1 {
+    match first_awake {
+      Some(_) => c = 0,
+      None => {
+        e.blocked_at = Some(e.choices.len());
+        e.sleep = 0;
+        return opts[0];
+      }
+    }
+  } else {
+    let pos = e.choices.len();
+    if pos < e.prefix.len() {
+      c = e.prefix[pos] as usize;
+      if c >= n || asleep & (1 << c) != 0 {
+        e.viol.push(V { class: "machinery".into(), sig: "machinery:replay-divergence".into(), msg: format!("choice {} of {} options (asleep {:#b}) at point {}", c, n, asleep, pos) });
+        e.aborting = true;
+        return opts[0];
+      }
+    } else {
+      match first_awake {
+        Some(j) => c = j,
+        None => {
+          e.blocked_at = Some(pos);
+          e.sleep = 0;
+          e.choices.push(Choice { n: n as u8, chosen: 0, pre_before: e.preempt, costly: cur_ok && costly, kind: 0, dev_before: 0, asleep });
+          return opts[0];
+        }
+      }
+    }
+    if e.hash_states {
+      let h = state_hash(e);
+      e.state_hashes.push(h);
+    }
+    e.choices.push(Choice { n: n as u8, chosen: c as u8, pre_before: e.preempt, costly: cur_ok && costly, kind: 0, dev_before: 0, asleep });
+    // the siblings explored before this option sleep in its subtree
+    for t in &opts[..c] {
+      e.sleep |= 1 << *t;
+    }
+  }
+  let t = opts[c];
+  e.sleep &= !(1 << t);
+  let fp = e.pending[t];
+  let mut z = e.sleep;
+  while z != 0 {
+    let u = z.trailing_zeros() as usize;
+    z &= z - 1;
+    if dependent(&e.pending[u], &fp) {
+      e.sleep &= !(1 << u);
+    }
+  }
+  // what this thread does after the action is not known before its next scheduling point: nothing shared
+  e.pending[t] = Fp::default();
+  t
+}
+
+/// sleep-set mode: a write that changed `[lo, lo+len)`.  Whether a waiting thread is parked must not depend on
+/// writes that are independent of everything it did (the reduction commutes those), so here a thread is parked when
+/// none of the words it loaded since its last yield has changed, and woken by a change to one of them.
+fn note_write(e: &mut Eng, lo: usize, len: usize) {
+  if !e.precise || len == 0 {
+    return;
+  }
+  for t in 0..e.n {
+    if e.rs[t].iter().any(|x| x.0 < lo + len && lo < x.0 + x.1) {
+      e.dirty[t] = true;
+      if t != e.cur {
+        if let St::Parked(_) = e.st[t] {
+          e.st[t] = St::Runnable;
+        }
+      }
+    }
+  }
+}
+
+/// sleep-set mode: announce the visible action the running thread is about to perform
+fn announce(e: &mut Eng, fp: Fp) {
+  if e.por {
+    let cur = e.cur;
+    if cur < e.pending.len() {
+      e.pending[cur] = fp;
+    }
+  }
+}
+
+/// a scheduling point in front of a visible action of the harness itself (registration of a handle, the owner's last
+/// look at its bytes) or of the arena's plain writes; only in sleep-set mode, where every visible action needs one
+fn visible_point(fp: Fp) {
+  let on = ENG.with(|e| {
+    let mut e = e.borrow_mut();
+    if !e.por || e.observer || e.draining || e.solo.is_some() || e.aborting || e.cur >= e.n {
+      return false;
+    }
+    announce(&mut e, fp);
+    true
+  });
+  if on {
+    sched_point();
+  }
 }
 
 /// a choice that is not about scheduling: `n` options, option 0 is the default (SC) behaviour
@@ -288,7 +472,7 @@ fn decide_value(e: &mut Eng, n: usize, kind: u8) -> usize {
     e.state_hashes.push(h);
   }
   let dev = if kind == 1 { e.stale } else { e.spur };
-  e.choices.push(Choice { n: n as u8, chosen: c, pre_before: e.preempt, costly: false, kind, dev_before: dev });
+  e.choices.push(Choice { n: n as u8, chosen: c, pre_before: e.preempt, costly: false, kind, dev_before: dev, asleep: 0 });
   c as usize
 }
 
@@ -409,7 +593,7 @@ fn sched_point() {
     }
     // fairness: a thread that ran FAIR_SLICE events in a row hands over (no choice, no cost)
     e.consecutive += 1;
-    if e.consecutive > FAIR_SLICE {
+    if e.consecutive > FAIR_SLICE && !e.por {
       e.consecutive = 0;
       let n = e.n;
       for k in 1..n {
@@ -502,12 +686,37 @@ impl Hook for H {
       if !e.aborting {
         capture_image(&e);
       }
+      let write = !matches!(ev.kind, Kind::Load);
+      announce(&mut e, Fp::one(a, sz, write));
       false
     });
     if bad {
       std::panic::panic_any(Abort);
     }
     sched_point();
+    // other threads may have run in between: the memory may be gone by now
+    let gone = ENG.with(|e| {
+      let mut e = e.borrow_mut();
+      if e.observer || !e.torn_down || e.aborting || std::thread::panicking() {
+        return false;
+      }
+      let a = ev.addr;
+      let sz = ev.size as usize;
+      let in_img = a >= e.rg.base && a + sz <= e.rg.base + e.rg.cap;
+      let in_box = a >= e.rg.memory_box && a + sz <= e.rg.memory_box + e.rg.memory_box_len;
+      if in_img || in_box {
+        let cur = e.cur;
+        let f = fn_of(ev.file, ev.line);
+        let tb = e.teardown_by;
+        e.viol.push(V { class: "use-after-free".into(), sig: format!("use-after-free:{}", f), msg: format!("thread {} accesses arena memory in {} ({}:{}) after the backing memory was released by thread {:?}", cur, f, ev.file, ev.line, tb) });
+        e.aborting = true;
+        return true;
+      }
+      false
+    });
+    if gone {
+      std::panic::panic_any(Abort);
+    }
   }
 
   fn after(&self, ev: &Event, old: u64, new: u64, ok: bool) {
@@ -527,6 +736,13 @@ impl Hook for H {
       };
       if let Kind::Load = ev.kind {
         e.last_load[cur] = (off, old, ev.file, ev.line);
+      }
+      if e.precise && cur < e.rs.len() {
+        e.rs[cur].push((ev.addr, ev.size as usize));
+        if wrote && old != new {
+          note_write(&mut e, ev.addr, ev.size as usize);
+          e.dirty[cur] = true;
+        }
       }
       {
         let mut hh = e.hist[cur];
@@ -646,8 +862,18 @@ impl Hook for H {
         e.trace.push(TraceEv { tid: cur, what: "snooze".into() });
       }
       // park only when the whole iteration was computed from a memory image that is still current
-      let quiet = e.yield_epoch[cur] == e.wepoch;
+      let mut quiet = e.yield_epoch[cur] == e.wepoch;
       e.yield_epoch[cur] = e.wepoch;
+      if e.precise {
+        // (sleep-set mode) ... from words that are all still what this thread read
+        quiet = !e.dirty[cur];
+        e.dirty[cur] = false;
+        if !quiet {
+          // (a parked thread keeps its read set: a change to one of those words wakes it up)
+          e.rs[cur].clear();
+        }
+        announce(&mut e, Fp::default());
+      }
       if quiet {
         let ep = e.wepoch;
         e.st[cur] = St::Parked(ep);
@@ -689,9 +915,21 @@ impl Hook for H {
       }
     });
     do_act(act);
+    // a thread that was parked and has been woken starts a fresh iteration of its wait loop
+    ENG.with(|e| {
+      let mut e = e.borrow_mut();
+      let cur = e.cur;
+      if e.precise && cur < e.rs.len() && !e.aborting {
+        e.rs[cur].clear();
+        e.dirty[cur] = false;
+      }
+    });
   }
 
   fn plain_write(&self, addr: usize, len: usize) {
+    if len > 0 {
+      visible_point(Fp::one(addr, len, true));
+    }
     let bad = ENG.with(|e| {
       let mut e = e.borrow_mut();
       if e.observer || len == 0 || e.aborting {
@@ -719,6 +957,7 @@ impl Hook for H {
       }
       let cur = e.cur;
       let off = addr - e.rg.base;
+      note_write(&mut e, addr, len);
       let hit = e.live.iter().find(|l| off < l.m.0 + l.m.1 && off + len > l.m.0).cloned();
       if let Some(l) = hit {
         e.viol.push(V { class: "live-write".into(), sig: format!("live-write:zeroing:victim-{}", l.kind), msg: format!("thread {} zeroes [{},{}) which intersects live {} handle [{},{}) of thread {}", cur, off, off + len, l.kind, l.m.0, l.m.0 + l.m.1, l.tid) });
@@ -741,6 +980,7 @@ impl Hook for H {
   }
 
   fn teardown(&self, _addr: usize, _len: usize) {
+    visible_point(Fp::write_all());
     ENG.with(|e| {
       let mut e = e.borrow_mut();
       if e.observer {
@@ -798,6 +1038,11 @@ fn reg_alloc(tid: usize, sh: &Shared, m: Meta4, kind: &'static str, pat: u8) -> 
 /// `req` = (requested extra bytes, fixed size, alignment) of the call, for the C03 oracle
 fn reg_alloc_req(tid: usize, sh: &Shared, m: Meta4, kind: &'static str, pat: u8, req: Option<(u32, u32, u32)>) -> LiveH {
   let (off, cap, _boff, _bcap) = m;
+  {
+    // the registration reads the cursor and fills the range with the owner's pattern
+    let hdr = ENG.with(|e| e.borrow().rg.header);
+    visible_point(Fp::two((sh.base as usize + off, cap, true), (hdr + 8, 4, false)));
+  }
   let l = ENG.with(|e| {
     let mut e = e.borrow_mut();
     if let Some((n, fixed, align)) = req {
@@ -855,6 +1100,7 @@ fn reg_alloc_req(tid: usize, sh: &Shared, m: Meta4, kind: &'static str, pat: u8,
       }
     }
     unsafe { std::ptr::write_bytes(sh.base.add(off), pat, cap) };
+    ENG.with(|e| note_write(&mut e.borrow_mut(), sh.base as usize + off, cap));
   }
   l
 }
@@ -887,6 +1133,7 @@ fn release(tid: usize, sh: &Shared, a: &Arena, l: &LiveH) {
 
 /// the release proper is `how`: an explicit `dealloc` of the buffer extent, or the drop of the handle
 fn release_with(tid: usize, sh: &Shared, l: &LiveH, how: impl FnOnce()) {
+  visible_point(Fp::one(sh.base as usize + l.m.0, l.m.1, false));
   check_pat(sh, l, "before its release");
   ENG.with(|e| {
     let mut e = e.borrow_mut();
@@ -920,6 +1167,10 @@ fn begin_op(tid: usize, k: usize) {
     e.op_events[tid] = 0;
     let w = e.wepoch;
     e.yield_epoch[tid] = w;
+    if e.precise && tid < e.rs.len() {
+      e.rs[tid].clear();
+      e.dirty[tid] = false;
+    }
   });
 }
 fn end_op(tid: usize) {
@@ -1063,6 +1314,7 @@ fn run_thread(tid: usize, sh: &Shared, prog: &[TOp], mine: Option<Arena>) {
       },
       TOp::DropOwn => {
         if let Some((l, b)) = owned.pop() {
+          visible_point(Fp::one(sh.base as usize + l.m.0, l.m.1, false));
           check_pat(sh, &l, "before its release");
           ENG.with(|e| {
             let mut e = e.borrow_mut();
@@ -1128,6 +1380,7 @@ fn run_thread(tid: usize, sh: &Shared, prog: &[TOp], mine: Option<Arena>) {
     drop(h);
   }
   for (l, b) in owned.drain(..).rev() {
+    visible_point(Fp::one(sh.base as usize + l.m.0, l.m.1, false));
     ENG.with(|e| e.borrow_mut().live.retain(|x| !(x.m == l.m && x.tid == l.tid)));
     let mut b = b;
     unsafe { b.detach() };
@@ -1161,6 +1414,10 @@ pub struct ExecOut {
   pub max_op_events: u64,
   pub choice_keys: Vec<u64>,
   pub obs: Vec<(u8, u8, u64)>,
+  /// sleep-set mode: the choice point from which this execution only repeated an explored one
+  pub blocked_at: Option<usize>,
+  /// what every logical thread observed, rolled into one hash per thread
+  pub hist: Vec<u64>,
 }
 
 pub struct ExecOpts {
@@ -1176,6 +1433,8 @@ pub struct ExecOpts {
   pub stale: u8,
   /// at most this many `compare_exchange_weak` calls that would succeed fail spuriously
   pub spur: u8,
+  /// sleep-set partial-order reduction (no preemption bound)
+  pub por: bool,
 }
 
 struct GenPool {
@@ -1202,6 +1461,17 @@ pub struct ImgState {
 }
 
 thread_local! {
+  /// location-precise parking outside the sleep-set mode (self-test of the reduction only)
+  pub static PRECISE_PARK: std::cell::Cell<bool> = const { std::cell::Cell::new(false) };
+}
+
+thread_local! {
+  /// Some(..) while the outcomes of the executions of this OS thread are being collected (self-test of the reduction):
+  /// one hash per execution over the final memory and everything each thread observed
+  pub static OUTCOMES: RefCell<Option<std::collections::HashSet<u64>>> = const { RefCell::new(None) };
+}
+
+thread_local! {
   /// Some(..) while crash images are being collected on this OS thread (C06, concurrent part)
   pub static IMG: RefCell<Option<ImgState>> = const { RefCell::new(None) };
 }
@@ -1225,7 +1495,7 @@ fn capture_image(e: &Eng) {
 
 pub fn run_one(h: &Harness, prefix: &[u8], o: &ExecOpts) -> ExecOut {
   let n = h.progs.len();
-  let cfg = Cfg { fl: h.fl, backend: Backend::Vec, unify: h.unify, reserved: h.reserved, min_seg: h.min_seg, max_align: 16, cap: h.cap, magic: 0, file_offset: 0, retries: 5 };
+  let cfg = Cfg { fl: h.fl, backend: Backend::Vec, unify: h.unify, reserved: h.reserved, min_seg: h.min_seg, max_align: 16, cap: h.cap, magic: 0, file_offset: 0, retries: 5, via_clone: false };
   let arena: Arena = Options::new().with_capacity(h.cap).with_unify(h.unify).with_freelist(h.fl.to()).with_minimum_segment_size(h.min_seg).with_maximum_alignment(16).with_reserved(h.reserved).alloc::<Arena>().expect("arena");
   if h.reserved > 0 {
     for (i, b) in unsafe { arena.reserved_slice_mut() }.iter_mut().enumerate() {
@@ -1336,6 +1606,11 @@ pub fn run_one(h: &Harness, prefix: &[u8], o: &ExecOpts) -> ExecOut {
     e.bounded = o.bounded;
     e.stale_max = if e.hb.is_some() { o.stale } else { 0 };
     e.spur_max = o.spur;
+    e.por = o.por;
+    e.precise = o.por || PRECISE_PARK.with(|p| p.get());
+    e.pending = vec![Fp::default(); n + 1];
+    e.rs = vec![vec![]; n + 1];
+    e.dirty = vec![false; n + 1];
     if e.stale_max > 0 {
       e.hb.as_mut().unwrap().enable_weak();
     }
@@ -1473,6 +1748,8 @@ pub fn run_one(h: &Harness, prefix: &[u8], o: &ExecOpts) -> ExecOut {
       max_op_events: e.max_op_events,
       choice_keys: std::mem::take(&mut e.choice_keys),
       obs: std::mem::take(&mut e.obs),
+      blocked_at: e.blocked_at,
+      hist: e.hist.clone(),
     }
   });
   if torn {
@@ -1587,9 +1864,14 @@ pub struct ExploreCfg {
   /// budgets of the non-SC deviations (see `ExecOpts`)
   pub stale: u8,
   pub spur: u8,
+  /// sleep-set partial-order reduction: every interleaving up to the commutation of independent actions, no
+  /// preemption bound (`bound` must be 255, `stale` 0)
+  pub por: bool,
 }
 
 pub struct ExploreStats {
+  /// sleep-set mode: executions that ended in a node whose enabled threads were all asleep (redundant ones)
+  pub blocked: u64,
   pub pruned: u64,
   pub states: u64,
   pub execs: u64,
@@ -1602,14 +1884,14 @@ pub struct ExploreStats {
 /// DFS over choice-index prefixes; every schedule with at most `bound` preemptions is run once.
 pub fn explore(run: &Run, h: &Harness, xc: &ExploreCfg, tag: &str) -> ExploreStats {
   let mut stack: Vec<Vec<u8>> = vec![vec![]];
-  let mut st = ExploreStats { pruned: 0, states: 0, execs: 0, events: 0, capped: false, max_choices: 0, max_op_events: 0 };
+  let mut st = ExploreStats { blocked: 0, pruned: 0, states: 0, execs: 0, events: 0, capped: false, max_choices: 0, max_op_events: 0 };
   let bounded = xc.bound < 200;
-  let o = ExecOpts { tracing: false, hash_states: !xc.cache, hb: xc.hb, drain: xc.drain, cache: xc.cache, bounded, stale: xc.stale, spur: xc.spur };
+  let o = ExecOpts { tracing: false, hash_states: !xc.cache, hb: xc.hb, drain: xc.drain, cache: xc.cache, bounded, stale: xc.stale, spur: xc.spur, por: xc.por };
   let mut seen: std::collections::HashMap<u64, u8> = std::collections::HashMap::new();
   // distinct states of this harness, merged into the run's counter once at the end
   let mut local_states: std::collections::HashSet<u64> = std::collections::HashSet::new();
   let mut pruned: u64 = 0;
-  crate::crashguard::set_case(crate::crashguard::head_of(&json!({"engine": "sched", "tag": tag, "harness": h, "hb": xc.hb, "drain": xc.drain, "stale": xc.stale, "spur": xc.spur})));
+  crate::crashguard::set_case(crate::crashguard::head_of(&json!({"engine": "sched", "tag": tag, "harness": h, "hb": xc.hb, "drain": xc.drain, "stale": xc.stale, "spur": xc.spur, "por": xc.por})));
   let mut first_trace: Option<Vec<String>> = None;
   let mut viol_execs = 0u32;
   while let Some(p) = stack.pop() {
@@ -1625,7 +1907,7 @@ pub fn explore(run: &Run, h: &Harness, xc: &ExploreCfg, tag: &str) -> ExploreSta
     // (an execution in which a violation was recorded may have gone through freed or foreign memory: its trace
     // is not expected to repeat)
     if st.execs <= 16 && out.viol.is_empty() && !out.cap_hit {
-      let o2 = ExecOpts { tracing: true, hash_states: false, hb: xc.hb, drain: xc.drain, cache: false, bounded, stale: xc.stale, spur: xc.spur };
+      let o2 = ExecOpts { tracing: true, hash_states: false, hb: xc.hb, drain: xc.drain, cache: false, bounded, stale: xc.stale, spur: xc.spur, por: xc.por };
       let a = run_one(h, &p, &o2);
       let b = run_one(h, &p, &o2);
       if (a.trace != b.trace || a.choices.len() != out.choices.len()) && a.viol.is_empty() && b.viol.is_empty() {
@@ -1639,6 +1921,13 @@ pub fn explore(run: &Run, h: &Harness, xc: &ExploreCfg, tag: &str) -> ExploreSta
     for hsh in &out.state_hashes {
       local_states.insert(*hsh);
     }
+    OUTCOMES.with(|o| {
+      if let Some(set) = o.borrow_mut().as_mut() {
+        if out.viol.is_empty() && !out.cap_hit {
+          set.insert(hash_of(&(out.outcome, &out.hist[..h.progs.len()])));
+        }
+      }
+    });
     if out.switches_in_op > 0 {
       run.nontrivial.insert(hash_of(&(h, out.outcome, out.viol.len())));
     }
@@ -1648,7 +1937,7 @@ pub fn explore(run: &Run, h: &Harness, xc: &ExploreCfg, tag: &str) -> ExploreSta
         property: prop.into(),
         signature: format!("{}:hang:event-cap", tag),
         message: format!("[{} {:?}] no progress: {} events without all threads finishing under a fair schedule", progs_str(&h.progs), (h.fl, h.shape), EVENT_CAP),
-        replay: json!({"engine": "sched", "tag": tag, "harness": h, "schedule": sched, "hb": xc.hb, "drain": xc.drain, "stale": xc.stale, "spur": xc.spur}),
+        replay: json!({"engine": "sched", "tag": tag, "harness": h, "schedule": sched, "hb": xc.hb, "drain": xc.drain, "stale": xc.stale, "spur": xc.spur, "por": xc.por}),
       });
     }
     for v in &out.viol {
@@ -1661,10 +1950,32 @@ pub fn explore(run: &Run, h: &Harness, xc: &ExploreCfg, tag: &str) -> ExploreSta
         property: prop.into(),
         signature: format!("{}:{}", tag, v.sig),
         message: format!("[{} fl={:?} shape={} unify={} min_seg={} schedule={:?}] {}", progs_str(&h.progs), h.fl, h.shape, h.unify, h.min_seg, sched, v.msg),
-        replay: json!({"engine": "sched", "tag": tag, "harness": h, "schedule": sched, "hb": xc.hb, "drain": xc.drain, "stale": xc.stale, "spur": xc.spur}),
+        replay: json!({"engine": "sched", "tag": tag, "harness": h, "schedule": sched, "hb": xc.hb, "drain": xc.drain, "stale": xc.stale, "spur": xc.spur, "por": xc.por}),
       });
     }
-    for i in p.len()..out.choices.len() {
+    if out.blocked_at.is_some() {
+      st.blocked += 1;
+    }
+    let expand_to = out.blocked_at.unwrap_or(out.choices.len()).min(out.choices.len());
+    if xc.por {
+      // options in ascending order (the stack is LIFO: push the highest first); options asleep are skipped
+      for i in p.len()..expand_to {
+        let c = &out.choices[i];
+        if c.kind == 2 && c.dev_before >= xc.spur {
+          continue;
+        }
+        let from = if c.kind == 0 { c.chosen + 1 } else { 1 };
+        for alt in (from..c.n).rev() {
+          if c.kind == 0 && c.asleep & (1 << alt) != 0 {
+            continue;
+          }
+          let mut np: Vec<u8> = out.choices[..i].iter().map(|x| x.chosen).collect();
+          np.push(alt);
+          stack.push(np);
+        }
+      }
+    }
+    for i in p.len()..(if xc.por { 0 } else { out.choices.len() }) {
       let c = &out.choices[i];
       if xc.cache {
         // an aborted execution (violation found) is not cached: its siblings are still explored
@@ -1730,7 +2041,7 @@ pub fn explore(run: &Run, h: &Harness, xc: &ExploreCfg, tag: &str) -> ExploreSta
 pub fn replay(case: &Value) -> i32 {
   let h: Harness = serde_json::from_value(case["harness"].clone()).expect("harness");
   let sched: Vec<u8> = if case.get("schedule").is_some() { serde_json::from_value(case["schedule"].clone()).expect("schedule") } else { case["idx"].as_array().map(|a| a.iter().map(|x| x.as_u64().unwrap() as u8).collect()).unwrap_or_default() };
-  let o = ExecOpts { tracing: true, hash_states: false, hb: case["hb"].as_bool().unwrap_or(false), drain: case["drain"].as_bool().unwrap_or(false), cache: false, bounded: true, stale: case["stale"].as_u64().unwrap_or(0) as u8, spur: case["spur"].as_u64().unwrap_or(0) as u8 };
+  let o = ExecOpts { tracing: true, hash_states: false, hb: case["hb"].as_bool().unwrap_or(false), drain: case["drain"].as_bool().unwrap_or(false), cache: false, bounded: true, stale: case["stale"].as_u64().unwrap_or(0) as u8, spur: case["spur"].as_u64().unwrap_or(0) as u8, por: case["por"].as_bool().unwrap_or(false) };
   crate::crashguard::set_case(crate::crashguard::head_of(&json!({"engine": "sched", "harness": h})));
   println!("replay sched: {} fl={:?} shape={} unify={} min_seg={} schedule={:?}", progs_str(&h.progs), h.fl, h.shape, h.unify, h.min_seg, sched);
   let a = run_one(&h, &sched, &o);
@@ -1774,7 +2085,7 @@ pub fn litmus() -> Result<serde_json::Value, String> {
   use std::collections::BTreeSet;
   let outcomes = |progs: Vec<Vec<TOp>>, stale: u8| -> (BTreeSet<Vec<(u8, u8, u64)>>, u64) {
     let h = Harness { fl: Fl::None, unify: true, min_seg: 8, cap: 256, shape: 0, progs, own_arenas: false, leave: 64, odd: 0, reserved: 0 };
-    let o = ExecOpts { tracing: false, hash_states: false, hb: true, drain: false, cache: false, bounded: true, stale, spur: 0 };
+    let o = ExecOpts { tracing: false, hash_states: false, hb: true, drain: false, cache: false, bounded: true, stale, spur: 0, por: false };
     let mut stack: Vec<Vec<u8>> = vec![vec![]];
     let mut set = BTreeSet::new();
     let mut n = 0;
